@@ -25,6 +25,8 @@ svars == <<classes, hist>>
 SA_quick == {<<"RAMPING">>, <<"BUSY", "FINALIZING">>, <<"NOPE">>, <<"IDLE", "DISABLED">>}
 KA_quick == {<<"X", 777>>, <<"X", 100>>, <<"IDLE", 5>>, <<"RAMPING", 370>>}
 SA_thorough == SA_quick \cup {<<"DISABLED">>, <<"RAMPING", "FINALIZING">>}
+SA_deep == {<<"RAMPING">>, <<"NOPE">>}
+KA_deep == {<<"X", 777>>, <<"IDLE", 5>>}
 KA_thorough == KA_quick \cup {<<"PERSIST", 101>>, <<"IDLE", 100>>, <<"RAMPING", 390>>}
 
 Std == ("DISABLED" :> 0) @@ ("IDLE" :> 100) @@ ("WARN" :> 200) @@ ("BUSY" :> 300) @@ ("RAMPING" :> 370)
